@@ -22,7 +22,7 @@
        (for an ill-formed type in a declaration <reason> = template-type-ill-formed:<shape> lax=<accepts|rejects>:
         the shape of the first defect, and whether the program satisfies the rules once declaration
         types are checked by head name only - the class predicate of the FORMER finding
-        C15-lazy-declaration-types, fixed in /repo by <commit15>: any such acceptance is a violation now)
+        C15-lazy-declaration-types, fixed in /repo by eb42971: any such acceptance is a violation now)
      - a mutant the specification types and Rust accepts:  SKIP mutant-well-typed
      - on accept: every annotation is present and the checked definitions erase to the parsed ones
        up to the order of clauses, else  VIOL class=annotation …
@@ -30,7 +30,7 @@
    Domain of the theorems about programs with type parameters (Props/C15.v, round 2): every compared
    input must have identifier-like type / constructor / destructor names (Sem.FunNames.prog_names_ok),
    else  BAD names-not-identifier-like;  the OK line says dt-wf / dt-ill (Sem.FunNames.decl_types_wf:
-   until fix <commit15> the guard of the soundness theorem; now established by the checker, so an accepted
+   until fix eb42971 the guard of the soundness theorem; now established by the checker, so an accepted
    program is always dt-wf).
    Instance table (Sem.FunClosed): on accept the REAL output must satisfy defs_closed (every producer's type is
    declared under its printed name), else  VIOL class=output-not-closed;  the OK line says closed-full /
